@@ -215,6 +215,29 @@ func genInvalidConfig(r R) cors.Config {
 	}
 }
 
+// minimalInvalidations returns copies of a valid configuration in which exactly one setting is made invalid
+// (the rest, in particular the origin patterns, stays identical to the current state).
+func minimalInvalidations(a cors.Config) []cors.Config {
+	var out []cors.Config
+	add := func(f func(c *cors.Config)) {
+		c := cloneCfg(a)
+		f(&c)
+		if _, err := cors.NewMiddleware(cloneCfg(c)); err != nil {
+			out = append(out, c)
+		}
+	}
+	add(func(c *cors.Config) { c.DangerouslyTolerateInsecureOrigins = false })
+	add(func(c *cors.Config) { c.DangerouslyTolerateSubdomainsOfPublicSuffixes = false })
+	add(func(c *cors.Config) { c.MaxAgeInSeconds = 86401 })
+	add(func(c *cors.Config) { c.PreflightSuccessStatus = 199 })
+	add(func(c *cors.Config) { c.Methods = append(c.Methods, "CONNECT") })
+	add(func(c *cors.Config) { c.RequestHeaders = append(c.RequestHeaders, "Cookie") })
+	add(func(c *cors.Config) { c.ResponseHeaders = append(c.ResponseHeaders, "Set-Cookie") })
+	add(func(c *cors.Config) { c.PrivateNetworkAccess, c.PrivateNetworkAccessInNoCORSModeOnly = true, true })
+	add(func(c *cors.Config) { c.Credentialed = !c.Credentialed })
+	return out
+}
+
 func famHistWant(want string) family {
 	return func(o *Out, r R, tier string) {
 		nset, maxLen := 12, 4
@@ -223,8 +246,14 @@ func famHistWant(want string) family {
 		}
 		for s := 0; s < nset; s++ {
 			a, bcfg := genValidConfig(r), genValidConfig(r)
-			if s == 0 { // F2 regression shape: a configuration whose failing preflight reveals the debug mode
+			switch s {
+			case 0: // F2 regression shape: a configuration whose failing preflight reveals the debug mode
 				a = cors.Config{Origins: []string{"https://a.com"}}
+			case 1: // a state that is valid only thanks to the tolerance switches
+				a = cors.Config{Origins: []string{"http://example.com", "https://*.com"}, Credentialed: true, Methods: []string{"PUT"},
+					ExtraConfig: cors.ExtraConfig{DangerouslyTolerateInsecureOrigins: true, DangerouslyTolerateSubdomainsOfPublicSuffixes: true}}
+			case 2:
+				a = cors.Config{Origins: []string{"http://example.com:6060"}, ExtraConfig: cors.ExtraConfig{PrivateNetworkAccessInNoCORSModeOnly: true, DangerouslyTolerateInsecureOrigins: true}}
 			}
 			inv1, inv2 := genInvalidConfig(r), genInvalidConfig(r)
 			inv2.Origins = append([]string{}, a.Origins...) // partly valid, differs from the current state
@@ -244,6 +273,11 @@ func famHistWant(want string) family {
 			alphabet := []opT{{kind: "setdebug", b: true}, {kind: "setdebug", b: false}, {kind: "reconf", cfg: nil, label: "nil"},
 				{kind: "reconf", cfg: &a, label: "valid"}, {kind: "reconf", cfg: &bcfg, label: "valid"},
 				{kind: "reconf", cfg: &inv1, label: "invalid"}, {kind: "reconf", cfg: &inv2, label: "invalid"}}
+			// minimal invalidations: the current configuration A with exactly one thing made invalid
+			for _, mi := range minimalInvalidations(a) {
+				mi := mi
+				alphabet = append(alphabet, opT{kind: "reconf", cfg: &mi, label: "invalid"})
+			}
 			var rec func(prefix []opT)
 			run := func(ops []opT, init *cors.Config) {
 				var m *cors.Middleware
